@@ -136,6 +136,51 @@ V("c03-n-log-line", "C03", TPC,
   "\t\t\tif !committed && !undetermined {\n\t\t\t\tc.cleanup(ctx)\n",
   "\t\t\tif !committed && !undetermined {\n\t\t\t\tlogutil.Logger(ctx).Debug(\"cleanup\")\n\t\t\t\tc.cleanup(ctx)\n", "none")
 
+# ---------------------------------------------------------------- C04
+V("c04-primarylock-first-key", "C04", PREW, "\t\tPrimaryLock:            c.primary(),\n", "\t\tPrimaryLock:            m.GetKey(0),\n", "C04.R1")
+V("c04-secondaries-every-batch", "C04", PREW,
+  "\t\tif batch.isPrimary {\n\t\t\treq.Secondaries = c.asyncSecondaries()\n\t\t}\n", "\t\treq.Secondaries = c.asyncSecondaries()\n", "C04.R1")
+V("c04-tryonepc-unguarded", "C04", PREW, "\tif c.isOnePC() {\n\t\treq.TryOnePc = true\n\t}\n", "\treq.TryOnePc = c.txn.enable1PC\n", "C04.R1")
+V("c04-skip-check-for-pessimistic", "C04", PREW,
+  "\t\tif m.IsPessimisticLock(i) {\n\t\t\tpessimisticActions[i] = kvrpcpb.PrewriteRequest_DO_PESSIMISTIC_CHECK\n\t\t} else if m.NeedConstraintCheckInPrewrite(i) {",
+  "\t\tif m.IsPessimisticLock(i) && c.forUpdateTS > 0 {\n\t\t\tpessimisticActions[i] = kvrpcpb.PrewriteRequest_DO_PESSIMISTIC_CHECK\n\t\t} else if m.NeedConstraintCheckInPrewrite(i) {", "C04.R1c")
+V("c04-assert-swapped", "C04", PREW,
+  "\t\tif m.IsAssertExists(i) {\n\t\t\tassertion = kvrpcpb.Assertion_Exist\n\t\t}\n\t\tif m.IsAssertNotExist(i) {\n\t\t\tassertion = kvrpcpb.Assertion_NotExist",
+  "\t\tif m.IsAssertExists(i) {\n\t\t\tassertion = kvrpcpb.Assertion_NotExist\n\t\t}\n\t\tif m.IsAssertNotExist(i) {\n\t\t\tassertion = kvrpcpb.Assertion_Exist", "C04.R1c")
+V("c04-secondaries-skip-locks", "C04", TPC,
+  "if bytes.Equal(k, c.primary()) || c.mutations.GetOp(i) == kvrpcpb.Op_CheckNotExists {",
+  "if bytes.Equal(k, c.primary()) || c.mutations.GetOp(i) == kvrpcpb.Op_CheckNotExists || c.mutations.GetOp(i) == kvrpcpb.Op_Lock {", "C04.R1b")
+V("c04-secondaries-keep-cne", "C04", TPC,
+  "if bytes.Equal(k, c.primary()) || c.mutations.GetOp(i) == kvrpcpb.Op_CheckNotExists {",
+  "if bytes.Equal(k, c.primary()) {", "C04.R1b")
+V("c04-fallback-after-dispatch", "C04", TPC,
+  "\tc.checkOnePCFallBack(action, len(batchBuilder.allBatches()))\n\n\tvar err error\n", "\tvar err error\n\tdefer c.checkOnePCFallBack(action, len(batchBuilder.allBatches()))\n", "C04.R2")
+V("c04-fallback-threshold", "C04", TPC, "\t\tif batchCount > 1 {\n\t\t\tc.setOnePC(false)", "\t\tif batchCount > 2 {\n\t\t\tc.setOnePC(false)", "C04.R2")
+V("c04-commit-keys-all", "C04", COMMIT, "\t\tKeys:           keys,\n", "\t\tKeys:           c.mutations.GetKeys(),\n", "C04.R3")
+V("c04-commit-version-min", "C04", COMMIT, "\t\tCommitVersion:  c.commitTS,\n", "\t\tCommitVersion:  c.minCommitTSMgr.get(),\n", "C04.R3")
+V("c04-commit-despite-prewrite-error", "C04", TPC,
+  """	if err != nil {
+		logutil.Logger(ctx).Debug("2PC failed on prewrite",
+			zap.Error(err),
+			zap.Uint64("txnStartTS", c.startTS))
+		return err
+	}
+""", """	if err != nil && !c.isAsyncCommit() {
+		logutil.Logger(ctx).Debug("2PC failed on prewrite",
+			zap.Error(err),
+			zap.Uint64("txnStartTS", c.startTS))
+		return err
+	}
+""", "C04.R4")
+V("c04-heartbeat-ttl-no-uptime", "C04", TPC, "\t\t\tnewTTL := uptime + atomic.LoadUint64(&ManagedLockTTL)\n", "\t\t\tnewTTL := atomic.LoadUint64(&ManagedLockTTL)\n\t\t\t_ = uptime\n", "C04.R5")
+V("c04-current-ts-always-max", "C04", "txnkv/txnlock/lock_resolver.go",
+  "\tif l.TTL == 0 {\n\t\t// NOTE: l.TTL = 0 is a special protocol!!!", "\tif l.TTL == 0 || l.IsPessimistic() {\n\t\t// NOTE: l.TTL = 0 is a special protocol!!!", "C04.R6")
+V("c04-rollback-if-not-exist-initially", "C04", "txnkv/txnlock/lock_resolver.go", "\trollbackIfNotExist := false\n", "\trollbackIfNotExist := l.IsPessimistic()\n", "C04.R6")
+V("c04-expiry-lt", "C04", "txnkv/txnlock/lock_resolver.go",
+  "if lr.store.GetOracle().UntilExpired(l.TxnID, l.TTL, &oracle.Option{TxnScope: oracle.GlobalTxnScope}) <= 0 {",
+  "if lr.store.GetOracle().UntilExpired(l.TxnID, l.TTL, &oracle.Option{TxnScope: oracle.GlobalTxnScope}) <= 1000 {", "C04.R6")
+V("c04-n-extract-helper", "C04", PREW, "\tif c.isOnePC() {\n\t\treq.TryOnePc = true\n\t}\n", "\tonePC := c.isOnePC()\n\tif onePC {\n\t\treq.TryOnePc = true\n\t}\n", "none")
+
 if __name__ == "__main__":
     out = os.path.join(os.path.dirname(os.path.abspath(__file__)), "variants.json")
     json.dump(VARS, open(out, "w"), indent=1)
